@@ -137,6 +137,12 @@ class TransformedHistogramMixin(abc.ABC):
         """
         axes, _ = self._get_projection_axes(*axes)
         axes = tuple(sorted(axes))
+        if len(axes) == self.ndim:
+            # All coordinates kept: the same kind of histogram (with its radius, if it has one)
+            result = HistogramND.projection(self, *axes, type=type(self), **kwargs)
+            if "radius" in self._meta_data:
+                result._meta_data["radius"] = self._meta_data["radius"]
+            return result
         if axes in self._projection_class_map:
             klass = self._projection_class_map[axes]
             return HistogramND.projection(self, *axes, type=klass, **kwargs)
